@@ -1047,7 +1047,22 @@ func callBuiltin(caller *frame, callpos token.Pos, fn *ssa.Builtin, args []value
 				zeroElem = func() value { return zero(et) }
 			}
 		}
-		return growAppend(arg0, extra, elemSize, zeroElem)
+		if caller.i.conc != nil {
+			if len(arg0)+len(extra) <= cap(arg0) {
+				full := arg0[:len(arg0)+len(extra)]
+				for k := len(arg0); k < len(full); k++ {
+					caller.i.logAccess(&full[k], true, caller)
+				}
+			}
+			for k := range extra {
+				caller.i.logAccess(&extra[k], false, caller)
+			}
+		}
+		res := growAppend(arg0, extra, elemSize, zeroElem)
+		if caller.i.conc != nil && cap(res) != cap(arg0) {
+			caller.i.noteAllocSlice(res)
+		}
+		return res
 
 	case "copy": // copy([]T, []T) int or copy([]byte, string) int
 		src := args[1]
@@ -1060,6 +1075,13 @@ func callBuiltin(caller *frame, callpos token.Pos, fn *ssa.Builtin, args []value
 			}
 			src = tmp
 		}
+		if caller.i.conc != nil {
+			dst, sv := args[0].([]value), src.([]value)
+			for k := 0; k < len(dst) && k < len(sv); k++ {
+				caller.i.logAccess(&dst[k], true, caller)
+				caller.i.logAccess(&sv[k], false, caller)
+			}
+		}
 		return copy(args[0].([]value), src.([]value))
 
 	case "close": // close(chan T)
@@ -1069,6 +1091,9 @@ func callBuiltin(caller *frame, callpos token.Pos, fn *ssa.Builtin, args []value
 	case "delete": // delete(map[K]value, K)
 		switch m := args[0].(type) {
 		case *omap:
+			if caller.i.conc != nil {
+				caller.i.logAccess(m, true, caller)
+			}
 			m.delete(ex, args[1])
 		default:
 			panic(engineErr{fmt.Sprintf("illegal map type: %T", m)})
@@ -1105,6 +1130,9 @@ func callBuiltin(caller *frame, callpos token.Pos, fn *ssa.Builtin, args []value
 		case []value:
 			return len(x)
 		case *omap:
+			if caller.i.conc != nil {
+				caller.i.logAccess(x, false, caller)
+			}
 			return x.len()
 		case chan value:
 			return len(x)
